@@ -111,8 +111,9 @@ def r2_stop(ctx):
     edges = []
     for c in conds.all():
         t = c.term
-        if c.kind == "bool" and isinstance(t, tuple) and t[0] == "binop" and t[1] in ("Ge", "Lt") and is_call_term(t[3], "PaddingFactory::stop") and strip_bb(t[2]) == strip_bb(idx):
-            edges += c.edges_for(False) if t[1] == "Ge" else c.edges_for(True)
+        if c.kind == "bool" and isinstance(t, tuple) and t[0] == "binop" and t[1] in ("Le", "Lt") and ((t[1] == "Le" and is_call_term(t[2], "PaddingFactory::stop") and strip_bb(t[3]) == strip_bb(idx)) or (t[1] == "Lt" and is_call_term(t[3], "PaddingFactory::stop") and strip_bb(t[2]) == strip_bb(idx))):
+            # canonical forms: `stop <= pkt` (written pkt >= stop) or `pkt < stop`
+            edges += c.edges_for(False) if t[1] == "Le" else c.edges_for(True)
     ok = bool(edges) and cfg.edges_dominate(edges, g.bb)
     ctx.ob("R05.2", "write_with_padding:stop-cut-off", ok, g.site, "size generation is dominated by the false edge of `pkt >= stop()` on the same index" if ok else
            "shaping is not cut off by `pkt >= stop` (same index value as the one that selects the scheme line)")
@@ -132,7 +133,7 @@ def r3_role(ctx):
     ctx.ob("R05.3", "is_client:constructor-constants", oki, "", "is_client = true in new_client, false in new_server" if oki else "is_client constants are wrong")
     # never written elsewhere
     bad = []
-    for key, body in ctx.P.bodies.items():
+    for key, body in ctx.P.scan():
         if not key.startswith("session::session::"):
             continue
         for bi in body.reachable():
@@ -193,8 +194,8 @@ def r4_r5_once_per_write(ctx):
         a, b = o.of_operand(ss[0].args[0]), o.of_operand(ss[0].args[1])
         okb = isinstance(b, tuple) and b[0] == "binop" and b[1] == "Add" and any(const_value(x) == H for x in (b[2], b[3])) and any(is_call_term(x, "BytesMut::len") and var_name(x[3][0]) == "buffer" for x in (b[2], b[3]))
         # the minuend is this iteration's size: derived from next() and identical to the size the split decision compares with
-        split_sizes = [strip_bb(c.term[3]) for c in conds.all() if c.kind == "bool" and isinstance(c.term, tuple) and c.term[0] == "binop" and c.term[1] == "Gt"
-                       and is_call_term(c.term[2], "BytesMut::len") and var_name(c.term[2][3][0]) == "buffer" and any(is_call_term(s, "Iterator>::next") for s in subterms(c.term[3]))]
+        split_sizes = [strip_bb(c.term[2]) for c in conds.all() if c.kind == "bool" and isinstance(c.term, tuple) and c.term[0] == "binop" and c.term[1] == "Lt"
+                       and is_call_term(c.term[3], "BytesMut::len") and var_name(c.term[3][3][0]) == "buffer" and any(is_call_term(s, "Iterator>::next") for s in subterms(c.term[2]))]
         oka = any(is_call_term(s, "Iterator>::next") for s in subterms(a)) and strip_bb(a) in split_sizes
         ctx.ob("R05.5", "payload+padding:size-expression", oka and okb, ss[0].site, "padding = size.saturating_sub(remaining + HEADER)" if oka and okb else "padding length is %s - %s" % (fmt(a)[:60], fmt(b)[:60]))
     else:
